@@ -62,11 +62,32 @@ theorem C16_compile_ok_iff (isWord : Char → Bool) (cs : List Char) (e : Ast) :
     | ok e' => exact absurd hp (this e')
     | error err => cases err <;> simp
 
-/-- **parse_total.** For every string, `compile_` either returns a tree or raises `ParseError` with a column between 1
-and one past the end of the string; there is no third behaviour (in particular the model's fuel never runs out). -/
+/-- End to end: evaluating a selection expression under a matcher `m` yields `b` exactly when the string lexes
+completely, its tokens are derived by the reference grammar as some tree, and that tree has Boolean value `b`. -/
+theorem C16_compileEval_iff (isWord : Char → Bool) (m : List Char → Bool) (cs : List Char) (b : Bool) :
+    compileEval isWord m cs = .ok b ↔
+      (lex isWord cs).stop.isBad = false ∧ ∃ e, GTop ((lex isWord cs).toks.map (·.1)) e ∧ eval m e = b := by
+  unfold compileEval
+  constructor
+  · intro h
+    cases hc : compile isWord cs with
+    | error err => simp [hc, Except.map] at h
+    | ok e =>
+      simp only [hc, Except.map, Except.ok.injEq] at h
+      obtain ⟨h1, h2⟩ := (C16_compile_ok_iff isWord cs e).1 hc
+      exact ⟨h1, e, h2, h⟩
+  · rintro ⟨h1, e, h2, h3⟩
+    rw [(C16_compile_ok_iff isWord cs e).2 ⟨h1, h2⟩]
+    simp [Except.map, h3]
+
+/-- **parse_total.** For every string, `compile_` either returns a tree or raises `ParseError` with a column between
+that of the first character and one past the end of the string (columns are positions plus
+`Generated.exprErrorColOffset`, 1 in the current source); there is no third behaviour (in particular the model's fuel
+never runs out). -/
 theorem C16_parse_total (isWord : Char → Bool) (cs : List Char) :
     (∃ e, compile isWord cs = .ok e) ∨
-    (∃ col, compile isWord cs = .error (.syntax col) ∧ 1 ≤ col ∧ col ≤ cs.length + 1) := by
+    (∃ col, compile isWord cs = .error (.syntax col) ∧ Generated.exprErrorColOffset ≤ col ∧
+      col ≤ cs.length + Generated.exprErrorColOffset) := by
   unfold compile
   rcases parseToks_total (lex isWord cs).stop.isBad ((lex isWord cs).toks.map (·.1)) with ⟨e, he⟩ | ⟨k, hk, _⟩
   · left; exact ⟨e, by simp [he]⟩
@@ -165,7 +186,8 @@ theorem C16_lex_reject (isWord : Char → Bool) (pre post : List Char) (c : Char
     (hl : c ≠ Generated.exprLParen) (hr : c ≠ Generated.exprRParen) (hc : isIdentChar isWord c = false)
     (hpre : (lex isWord pre).stop.isBad = false) :
     lex isWord (pre ++ c :: post) = ⟨(lex isWord pre).toks, .bad pre.length⟩ ∧
-    ∃ col, compile isWord (pre ++ c :: post) = .error (.syntax col) ∧ 1 ≤ col ∧ col ≤ pre.length + 1 := by
+    ∃ col, compile isWord (pre ++ c :: post) = .error (.syntax col) ∧ Generated.exprErrorColOffset ≤ col ∧
+      col ≤ pre.length + Generated.exprErrorColOffset := by
   have hq : ∃ q, (lexGo isWord (pre ++ c :: post).length 0 pre).stop = .eof q := by
     rw [lexGo_fuel isWord _ pre.length 0 pre (by simp) (Nat.le_refl _)]
     unfold lex at hpre
@@ -193,7 +215,8 @@ theorem C16_lex_reject (isWord : Char → Bool) (pre post : List Char) (c : Char
         simp only [hp, Except.error.injEq, CErr.syntax.injEq] at hcol
         subst hcol
         unfold Lexed.colAt
-        simp only [Generated.exprErrorColOffset, Stop.pos]
+        simp only [Stop.pos]
+        generalize Generated.exprErrorColOffset = off
         split
         · rename_i tk p rest heq
           have hmem : (tk, p) ∈ (lex isWord pre).toks := List.mem_of_mem_drop (by rw [heq]; simp)
@@ -273,12 +296,12 @@ example : compile asciiWord "(a or b) and nota".toList
 example : compile asciiWord "a:b[1]/c\\d or x-y".toList
     = .ok (.or (.ident "a:b[1]/c\\d".toList) (.ident "x-y".toList)) := by decide +kernel
 /-- A `$` is rejected at its column. -/
-example : compile asciiWord "a $".toList = .error (.syntax 3) := by decide +kernel
+example : compile asciiWord "a $".toList = .error (.syntax (2 + Generated.exprErrorColOffset)) := by decide +kernel
 /-- The lexer is lazy: the syntax error in front of the `$` is reported first. -/
-example : compile asciiWord "a b $".toList = .error (.syntax 3) := by decide +kernel
+example : compile asciiWord "a b $".toList = .error (.syntax (2 + Generated.exprErrorColOffset)) := by decide +kernel
 /-- A missing operand is rejected at the end of the input. -/
-example : compile asciiWord "a and".toList = .error (.syntax 6) := by decide +kernel
-example : compile asciiWord ")".toList = .error (.syntax 1) := by decide +kernel
+example : compile asciiWord "a and".toList = .error (.syntax (5 + Generated.exprErrorColOffset)) := by decide +kernel
+example : compile asciiWord ")".toList = .error (.syntax (0 + Generated.exprErrorColOffset)) := by decide +kernel
 /-- Blanks only: false. -/
 example : compileEval asciiWord (fun _ => true) " \t".toList = .ok false := by decide +kernel
 
